@@ -30,7 +30,11 @@ impl Typstyle {
 
         let attrs = AttrStore::new(node.get()); // Here we only compute the attributes of that subtree.
         let printer = PrettyPrinter::new(self.config.clone(), attrs);
-        let ctx = Context::default().with_mode(mode);
+        let mut ctx = Context::default().with_mode(mode);
+        if mode.is_math() && node.kind() != SyntaxKind::Equation {
+            // Everything below a `Math` node is laid out with breaks suppressed (see `convert_math`).
+            ctx = ctx.suppress_breaks();
+        }
         let doc = if let Some(markup) = node.cast() {
             printer.convert_markup(ctx, markup)
         } else if let Some(expr) = node.cast() {
